@@ -116,7 +116,7 @@ class C20(Prop):
     harness = "h_simd.c"
     harness_flags = ["-msse4.1", "-mavx2", "-mavx512f", "-mavx512dq", "-mavx512bw"]
     theorems = ["EaselModel.Props.C20." + t for t in (
-        "sse_hmax_epu8", "sse_hmax_epi8", "sse_hmax_epi16", "avx_hmax_epu8", "avx_hmax_epi8", "avx_hmax_epi16", "avx512_hmax_epu8", "avx512_hmax_epi8", "avx512_hmax_epi16", "sse_hsum_ps", "avx_hsum_ps", "avx512_hsum_ps", "sse_hmax_ps", "sse_hmin_ps", "sse_any_gt_epu8", "sse_any_gt_epi16", "avx_any_gt_epi16", "sse_any_gt_ps", "sse_select_ps", "sse_rightshiftz_float", "sse_leftshiftz_float", "avx_rightshiftz_float", "avx_leftshiftz_float", "avx512_rightshiftz_float", "avx512_leftshiftz_float", "sse_rightshift_ps", "sse_leftshift_ps", "sse_rightshift_int8", "sse_rightshift_int16", "avx_rightshift_int8", "avx_rightshift_int16", "avx512_rightshift_int8", "avx512_rightshift_int16", "logf_negative", "logf_zero_subnormal", "logf_inf_nan", "expf_underflow", "expf_overflow", "expf_cutoffs_in_window", "expf_nan", "sum_eq_real", "dot_eq_real", "vmax_spec", "vmin_spec", "argmax_spec", "argmin_spec", "argmax_nil", "sortIncreasing_spec", "sortDecreasing_spec", "norm_of_sum_ne_zero", "norm_of_sum_zero", "entropy_eq", "cdf_spec", "validate_spec", "logSum_all_ninf", "logSum_spec", "logSum_of_max_pinf", "logNorm_spec", "relEntropyGo_spec", "isum_eq", "idot_eq", "log2Sum_spec", "rightshift_fill")]
+        "sse_hmax_epu8", "sse_hmax_epi8", "sse_hmax_epi16", "avx_hmax_epu8", "avx_hmax_epi8", "avx_hmax_epi16", "avx512_hmax_epu8", "avx512_hmax_epi8", "avx512_hmax_epi16", "sse_hsum_ps", "avx_hsum_ps", "avx512_hsum_ps", "sse_hmax_ps", "sse_hmin_ps", "sse_any_gt_epu8", "sse_any_gt_epi16", "avx_any_gt_epi16", "sse_any_gt_ps", "sse_select_ps", "sse_rightshiftz_float", "sse_leftshiftz_float", "avx_rightshiftz_float", "avx_leftshiftz_float", "avx512_rightshiftz_float", "avx512_leftshiftz_float", "sse_rightshift_ps", "sse_leftshift_ps", "sse_rightshift_int8", "sse_rightshift_int16", "avx_rightshift_int8", "avx_rightshift_int16", "avx512_rightshift_int8", "avx512_rightshift_int16", "logf_negative", "logf_zero_subnormal", "logf_inf_nan", "expf_underflow", "expf_overflow", "expf_cutoffs_in_window", "expf_nan", "sum_eq_real", "dot_eq_real", "vmax_spec", "vmin_spec", "argmax_spec", "argmin_spec", "argmax_nil", "sortIncreasing_spec", "sortDecreasing_spec", "norm_of_sum_ne_zero", "norm_of_sum_zero", "entropy_eq", "cdf_spec", "validate_spec", "logSum_all_ninf", "logSum_spec", "logSum_of_max_pinf", "logNorm_spec", "relEntropyGo_spec", "isum_eq", "idot_eq", "log2Sum_spec", "rightshift_fill", "logSum_spec_F", "log2Sum_spec_F", "hmaxU_spec", "hmaxS_spec")]
     claimed = True
     level_text = ("Theorems (Lean kernel): each of the 33 SSE/AVX/AVX-512 helper inlines, as regenerated from the headers of the working tree, equals the scalar "
                   "loop over its lanes for every lane pattern (hmax = fold max; any_gt = exists lane; select/shifts lane-wise with the documented fill; float "
@@ -148,6 +148,9 @@ class C20(Prop):
                    "vector routines: theorems are about the real-number instance of the model (L1/L2); rounding error (L0) is measured by monitors "
                    "against exact rational / high-precision evaluation; qsort is modelled as a merge sort (sorted output of a total preorder is unique)",
                    "Max/Min/LogSum/CDF read vec[0] unconditionally: n >= 1 is their precondition (n = 0 is generated only for the routines that allow it)",
+                   "float (F) routines: same model term at a binary32 instance with the sub-expressions the C source evaluates in double; the real-number theorems are about "
+                   "the shared generic definitions (LogSum/Log2Sum bounds proved for both windows, 500 and 50)",
+                   "integer (I/L) routines modelled on unbounded Int: signed overflow is undefined behaviour in C and the generators stay in range",
                    "not modelled: Set/Copy/Swap/Shuffle/Dump/Compare, esl_mat_* allocation routines (Create/GrowTo/Clone/Destroy), esl_avx/avx512 .c dump utilities"]
     rule = ("cases = op batches: every intrinsic of the table x lane views x immediates; every helper with the maximum in each lane, each boundary "
             "value in each lane, dense random lanes; logf/expf stratified over every exponent x boundary mantissas + threshold neighbourhoods + random; "
@@ -470,6 +473,8 @@ class C20(Prop):
                             ops.append("vec op=%sLog2Norm x=%s" % (T, hx(T, lv)))
                     ops.append("vec op=%sLog x=%s" % (T, hx(T, self.rand_vec(rng, n, "prob", T))))
                     ops.append("vec op=%sExp x=%s" % (T, hx(T, self.rand_vec(rng, n, "logp", T))))
+                    ops.append("vec op=%sLog2 x=%s" % (T, hx(T, self.rand_vec(rng, n, "prob", T))))
+                    ops.append("vec op=%sExp2 x=%s" % (T, hx(T, self.rand_vec(rng, n, "logp", T))))
             for n in (10000, rng.randrange(5000, 10000)):          # the top of the quantifier's length range
                 v = self.rand_vec(rng, n, rng.choice(["uni", "kahan", "ties"]), T)
                 lv = self.rand_vec(rng, n, "logp", T)
@@ -489,7 +494,12 @@ class C20(Prop):
                     for o in ("Sum", "Max", "Min", "ArgMax", "ArgMin", "SortIncreasing", "SortDecreasing"):
                         ops.append("vec op=%s%s x=%s" % (T, o, hv))
                     ops.append("vec op=%sDot x=%s y=%s" % (T, hv, hw))
+                    c = rng.choice([2, -3, 0, 7])
+                    ops.append("vec op=%sScale x=%s k=%d" % (T, hv, c)); ops.append("vec op=%sIncrement x=%s k=%d" % (T, hv, c))
+                    ops.append("vec op=%sAdd x=%s y=%s" % (T, hv, hw)); ops.append("vec op=%sAddScaled x=%s y=%s k=%d" % (T, hv, hw, c))
+                    if T == "L": ops.append("vec op=LReverse x=%s" % hv)
                     if T == "I":
+                        ops.append("vec op=IMatScale m=1 x=%s k=%d" % (hv, c))
                         ops.append("vec op=IReverse x=%s" % hv)
                         M = rng.choice([d for d in (1, 2, 3, 4, 5, 8) if n % d == 0])
                         ops.append("vec op=IMatMax m=%d x=%s" % (M, hv))
@@ -532,6 +542,12 @@ class C20(Prop):
             elif name == "Dot":
                 yb = unhex(kvs.get("y", "-")); y = [int.from_bytes(yb[i:i + k], "little", signed=True) for i in range(0, len(yb), k)]
                 exp = str(sum(a * b for a, b in zip(x, y)))
+            elif name in ("Scale", "MatScale", "Increment", "Add", "AddScaled"):
+                c = int(kvs.get("k", "1"))
+                yb = unhex(kvs.get("y", "-")); y = [int.from_bytes(yb[i:i + k], "little", signed=True) for i in range(0, len(yb), k)]
+                o = ([v * c for v in x] if name in ("Scale", "MatScale") else [v + c for v in x] if name == "Increment"
+                     else [a + b for a, b in zip(x, y)] if name == "Add" else [a + b * c for a, b in zip(x, y)])
+                exp = b"".join(int(v).to_bytes(k, "little", signed=True) for v in o).hex() or "-"
             elif name in ("SortIncreasing", "SortDecreasing", "Reverse"):
                 o = sorted(x) if name == "SortIncreasing" else sorted(x, reverse=True) if name == "SortDecreasing" else x[::-1]
                 exp = b"".join(int(v).to_bytes(k, "little", signed=True) for v in o).hex() or "-"
